@@ -87,7 +87,8 @@ pub struct DCase {
     pub text: bool,
     pub op: Op,
     pub dopts: DOpts,
-    /// 0: move target outside the tree, 1: inside the tree (below r0), 2: other device
+    /// 0: move target outside the tree, 1: inside the tree (below r0), 2: other device (tmpfs -> ext4,
+    /// not known to fclones as a separate mount), 3: loop-mounted ext4 (a separate mount for fclones)
     pub move_target: u8,
 }
 
@@ -186,7 +187,7 @@ pub fn dcase_strategy(sp: ScenarioProfile) -> BoxedStrategy<DCase> {
             );
             let rf_ok = sp.rf;
             let ml_ok = sp.match_links_ok;
-            (tree_strategy(&p), gsel, dopts, any::<bool>(), (0u16..u16::MAX), 0u8..3).prop_map(
+            (tree_strategy(&p), gsel, dopts, any::<bool>(), (0u16..u16::MAX), 0u8..4).prop_map(
                 move |(tree, (sl, iso, ml, rf), mut dopts, text, opsel, move_target)| {
                     let mut gopts = GOpts::default();
                     gopts.symbolic_links = sl;
@@ -371,6 +372,10 @@ pub fn target_dir(cd: &CaseDir, c: &DCase) -> PathBuf {
     match c.move_target {
         1 => cd.tree().join(ROOT_NAMES[0]).join("moved_here"),
         2 => PathBuf::from(format!("/var/tmp/fcvw/p{}/mv{}", std::process::id(), bytes_hash(&path_bytes(&cd.base)))),
+        3 => match second_mount() {
+            Some(m) => m.join(format!("mv{}", bytes_hash(&path_bytes(&cd.base)))),
+            None => PathBuf::from(format!("/var/tmp/fcvw/p{}/mv{}", std::process::id(), bytes_hash(&path_bytes(&cd.base)))),
+        },
         _ => cd.base.join("mv"),
     }
 }
@@ -404,7 +409,7 @@ pub fn file_list(built: &Built) -> Vec<PathBuf> {
 pub fn execute(prop: &str, c: &DCase, n: u64, dry_run: bool) -> Outcome {
     let g = build_and_group(prop, c, n, Fs::Tmpfs);
     let target = target_dir(&g.cd, c);
-    if c.op == Op::Move && c.move_target == 2 {
+    if c.op == Op::Move && c.move_target >= 2 {
         let _ = std::fs::create_dir_all(&target);
     }
     let tree = g.cd.tree();
@@ -434,7 +439,7 @@ pub fn execute(prop: &str, c: &DCase, n: u64, dry_run: bool) -> Outcome {
 
 impl Outcome {
     pub fn cleanup_target(&self) {
-        if self.target_dir.starts_with("/var/tmp/fcvw") {
+        if self.target_dir.starts_with("/var/tmp/fcvw") && self.target_dir.file_name().map(|n| n.to_string_lossy().starts_with("mv")).unwrap_or(false) {
             let _ = std::fs::remove_dir_all(&self.target_dir);
         }
     }
